@@ -101,3 +101,56 @@ impl AsLockedWrite for Mock {
         self
     }
 }
+
+/// A writer that only counts (no byte log, no scripted faults, no branches): for harnesses that
+/// look at routing and lock counts.  Storing bytes at a symbolic position, and the nested loop of
+/// std's default `write_all`, are what makes CBMC slow on the scripted mock.
+#[derive(Debug)]
+pub(crate) struct CountMock {
+    pub(crate) len: usize,
+    pub(crate) calls: usize,
+    pub(crate) flushes: usize,
+    pub(crate) locks: usize,
+}
+
+impl CountMock {
+    pub(crate) fn new() -> Self {
+        CountMock { len: 0, calls: 0, flushes: 0, locks: 0 }
+    }
+}
+
+impl std::io::Write for CountMock {
+    fn write(&mut self, buf: &[u8]) -> std::io::Result<usize> {
+        self.calls += 1;
+        self.len += buf.len();
+        Ok(buf.len())
+    }
+    fn write_all(&mut self, buf: &[u8]) -> std::io::Result<()> {
+        self.calls += 1;
+        self.len += buf.len();
+        Ok(())
+    }
+    fn flush(&mut self) -> std::io::Result<()> {
+        self.flushes += 1;
+        Ok(())
+    }
+}
+
+impl private::Sealed for CountMock {}
+
+impl IsTerminal for CountMock {
+    fn is_terminal(&self) -> bool {
+        false
+    }
+}
+
+impl RawStream for CountMock {}
+
+impl AsLockedWrite for CountMock {
+    type Write<'w> = &'w mut Self;
+
+    fn as_locked_write(&mut self) -> Self::Write<'_> {
+        self.locks += 1;
+        self
+    }
+}
